@@ -13,6 +13,9 @@ package main
 // ops (replayable):  c13peer store <n> <nstale>
 //                    c13peer gh <stopHeight|-|u|s<j>> <locator entries: height | u<k> (unknown) | s<j> (j-th stale header)> …
 //                    c13peer run                     (send everything queued so far pipelined, read the answers, judge)
+//                    c13peer ask <stop> <locator…>   one getheaders followed by a ping; everything up to the pong is its answer:
+//                                                    exactly one headers message, equal to what the chain says NOW (no time-out in the verdict)
+//                    c13peer grow <m>                the node learns m more headers (Chains.Add on the service side)
 
 import (
 	"fmt"
@@ -91,6 +94,9 @@ type c13PeerRig struct {
 	chain   []chainhash.Hash // longest chain by height (0 = genesis)
 	height  map[chainhash.Hash]int
 	stale   []chainhash.Hash
+	tag     int   // next header tag / timestamp offset
+	base    int64 // timestamp base
+	nonce   uint64
 	remote  net.Conn
 	gate    *c13GateConn
 	ln      net.Listener
@@ -132,6 +138,7 @@ func c13NewPeerRig(n, nstale int) (*c13PeerRig, error) {
 	r.chain = append(r.chain, *params.GenesisHash)
 	r.height[*params.GenesisHash] = 0
 	base := time.Now().Add(-2 * time.Hour).Unix()
+	r.base, r.tag = base, n+1
 	add := func(prev chainhash.Hash, tag int, at int, bits uint32) (chainhash.Hash, error) {
 		src := domains.BlockHeaderSource{Version: 1, PrevBlock: prev, MerkleRoot: chainhash.DoubleHashH([]byte(fmt.Sprintf("c13peer-%d", tag))),
 			Timestamp: time.Unix(base+int64(at), 0), Bits: bits, Nonce: uint32(tag)}
@@ -276,6 +283,96 @@ func (r *c13PeerRig) queue(op string) error {
 		req.locator = append(req.locator, &hc)
 	}
 	r.pending = append(r.pending, req)
+	return nil
+}
+
+// grow: the node learns m more headers on top of its tip.
+func (r *c13PeerRig) grow(m int) error {
+	for i := 0; i < m; i++ {
+		h := len(r.chain)
+		src := domains.BlockHeaderSource{Version: 1, PrevBlock: r.chain[h-1], MerkleRoot: chainhash.DoubleHashH([]byte(fmt.Sprintf("c13peer-%d", r.tag))),
+			Timestamp: time.Unix(r.base+int64(r.tag), 0), Bits: 0x207fffff, Nonce: uint32(r.tag)}
+		r.tag++
+		st, err := r.st.Svc.Chains.Add(src)
+		if err != nil {
+			return fmt.Errorf("growing the chain to height %d: %w", h, err)
+		}
+		if int(st.Height) != h || !st.IsLongestChain() {
+			return fmt.Errorf("grown header stored at height %d state %s, wanted longest chain height %d", st.Height, st.State, h)
+		}
+		r.chain = append(r.chain, st.Hash)
+		r.height[st.Hash] = h
+	}
+	return nil
+}
+
+// ask: one getheaders, then a ping. The peer handles its input in order and sends in order, so
+// whatever `headers` messages arrive before the pong are the answer.
+func (r *c13PeerRig) ask(c *Ctx, op string, ctxOps []string) error {
+	if err := r.queue(op); err != nil {
+		return err
+	}
+	q := r.pending[len(r.pending)-1]
+	r.pending = r.pending[:len(r.pending)-1]
+	gh := wire.NewMsgGetHeaders()
+	gh.ProtocolVersion = c13PeerPver
+	gh.BlockLocatorHashes = q.locator
+	gh.HashStop = q.stop
+	if err := wire.WriteMessage(r.remote, gh, c13PeerPver, wire.MainNet); err != nil {
+		return err
+	}
+	r.nonce++
+	nonce := 0xC13000000 + r.nonce
+	if err := wire.WriteMessage(r.remote, wire.NewMsgPing(nonce), c13PeerPver, wire.MainNet); err != nil {
+		return err
+	}
+	var answers [][]chainhash.Hash
+	for {
+		msg, err := r.recv(120 * time.Second)
+		if err != nil {
+			return fmt.Errorf("c13peer: no pong after %q: %w", op, err)
+		}
+		if h, ok := msg.(*wire.MsgHeaders); ok {
+			var hs []chainhash.Hash
+			for _, bh := range h.Headers {
+				hs = append(hs, bh.BlockHash())
+			}
+			answers = append(answers, hs)
+		}
+		if p, ok := msg.(*wire.MsgPong); ok && p.Nonce == nonce {
+			break
+		}
+	}
+	c.R.OracleChecked++
+	c.R.TracesValidated++
+	c.R.Count("c13peer:sequential getheaders", 1)
+	want := r.want(q)
+	var svc []chainhash.Hash
+	for _, h := range r.st.Svc.Headers.LocateHeaders(q.locator, &q.stop) {
+		svc = append(svc, h.BlockHash())
+	}
+	same := func(a, b []chainhash.Hash) bool {
+		if len(a) != len(b) {
+			return false
+		}
+		for i := range a {
+			if a[i] != b[i] {
+				return false
+			}
+		}
+		return true
+	}
+	switch {
+	case len(answers) == 0:
+		c.R.Fail(lib.Failure{Case: "c13peer", Ops: ctxOps, What: fmt.Sprintf("a getheaders (%s, tip height %d) got NO headers message at all: the pong to the ping sent right after it arrived first", op, len(r.chain)-1),
+			Expected: "one headers message " + c13HashList(want), Observed: "none", Signature: "c13-peer-getheaders-not-answered"})
+	case len(answers) > 1:
+		c.R.Fail(lib.Failure{Case: "c13peer", Ops: ctxOps, What: fmt.Sprintf("a getheaders (%s) got %d headers messages", op, len(answers)),
+			Expected: "one headers message", Observed: fmt.Sprint(len(answers)), Signature: "c13-peer-getheaders-answered-twice"})
+	case !same(answers[0], want) || !same(answers[0], svc):
+		c.R.Fail(lib.Failure{Case: "c13peer", Ops: ctxOps, What: fmt.Sprintf("the answer to getheaders (%s, tip height %d) is not the longest-chain headers following the highest locator entry up to the stop hash as the chain is NOW", op, len(r.chain)-1),
+			Expected: c13HashList(want), Observed: c13HashList(answers[0]) + fmt.Sprintf(" (the service asked directly answers %s)", c13HashList(svc)), Signature: "c13-peer-sequential-getheaders-wrong-answer"})
+	}
 	return nil
 }
 
@@ -436,6 +533,21 @@ func c13PeerRunOps(c *Ctx, ops []string) error {
 			if err := r.queue(op); err != nil {
 				return err
 			}
+		case "ask":
+			if r == nil {
+				return fmt.Errorf("c13peer ask before store")
+			}
+			if err := r.ask(c, op, ops[:i+1]); err != nil {
+				return err
+			}
+		case "grow":
+			if r == nil {
+				return fmt.Errorf("c13peer grow before store")
+			}
+			m, _ := strconv.Atoi(w[2])
+			if err := r.grow(m); err != nil {
+				return err
+			}
 		case "run":
 			if r == nil {
 				return fmt.Errorf("c13peer run before store")
@@ -477,6 +589,27 @@ func c13PeerStream(c *Ctx) error {
 	}
 	for _, p := range plans {
 		ops := []string{fmt.Sprintf("c13peer store %d %d", p.n, p.stale)}
+		// a dialogue on the same connection first: a request repeated verbatim, repeated after the chain has grown
+		// (a peer polling with its unchanged locator), with other requests in between
+		{
+			mk := func() string {
+				lh := rng.Intn(p.n + 1)
+				if rng.Intn(2) == 0 {
+					lh = p.n - rng.Intn(4)
+				}
+				loc := []string{strconv.Itoa(lh)}
+				for s := 1; lh-s > 0 && len(loc) < 8; s *= 2 {
+					loc = append(loc, strconv.Itoa(lh-s))
+				}
+				stop := "-"
+				if rng.Intn(4) == 0 {
+					stop = "u"
+				}
+				return fmt.Sprintf("c13peer ask %s %s", stop, strings.Join(loc, " "))
+			}
+			a, b, d := mk(), mk(), mk()
+			ops = append(ops, a, a, b, fmt.Sprintf("c13peer grow %d", 1+rng.Intn(3)), a, d, a, b, fmt.Sprintf("c13peer grow %d", 1+rng.Intn(3)), b, b)
+		}
 		for i := 0; i < p.k; i++ {
 			// answers of very different sizes: locator low / high, stop absent / near / far / behind / stale / unknown
 			lh := rng.Intn(p.n + 1)
